@@ -209,6 +209,14 @@ fn documents(c: &mut Ctx) {
         let mut doc = gen_doc(&mut r);
         let stream = r.chance(1, 2);
         doc.reference_table.cross_reference_type = if stream { XrefType::CrossReferenceStream } else { XrefType::CrossReferenceTable };
+        // every 6th document ends with an object that itself contains the tail of a PDF file (an
+        // embedded file, a string quoting `startxref … %%EOF`): the reader must use the REAL, last marker
+        if i % 6 == 0 {
+            let id = (doc.max_id + 1, 0); doc.max_id += 1;
+            let fake = format!("junk\nstartxref\n{}\n%%EOF\n", r.below(400)).into_bytes();
+            let o = if r.chance(1, 2) { Object::Stream(lopdf::Stream::new(Dictionary::new(), fake)) } else { Object::String(fake, lopdf::StringFormat::Literal) };
+            doc.objects.insert(id, o); c.count("doc.embedded_fake_trailer");
+        }
         if doc.objects.len() >= 2 { c.nontrivial(&format!("{}{}", i, doc.objects.len())); }
         c.count(if stream { "doc.xref_stream" } else { "doc.xref_table" });
         let kind = if stream { "stream" } else { "table" };
